@@ -12,6 +12,7 @@ Three configurations, reported separately:
 import collections
 
 from simkit import bootstrap
+from simkit import simtime
 from simkit.choice import rng_for, Log, pick, weighted
 from simkit import simdisk
 from simkit.shrink import shrink_list_at, replace_at
@@ -303,6 +304,14 @@ class FileStore(BaseEngine):
         mfmod.__dict__.pop('open', None)
 
     def run(self, prop, plan, keep_log=False):
+        _vc = simtime.VClock(5000.0)
+        simtime.activate(_vc.read, _vc.sleep)
+        try:
+            return self._run_inner(prop, plan, keep_log)
+        finally:
+            simtime.deactivate()
+
+    def _run_inner(self, prop, plan, keep_log=False):
         log = Log(keep_log)
         stats = collections.Counter()
         cov = set()
